@@ -62,6 +62,7 @@ def main():
     warnings.filterwarnings("ignore", message="numpy.core is deprecated")
     warnings.filterwarnings("ignore", message="Skipping some optimization steps")
     warnings.filterwarnings("ignore", message="SciPy is not installed")
+    warnings.filterwarnings("ignore", message="Decoder cache could not acquire lock")
     rep = common.Report(cid, args.tier, seed)
     mod = importlib.import_module(f"harness.props.{cid.lower()}")
     rep.rule = getattr(mod, "RULE", "")
